@@ -151,24 +151,82 @@ fn confirm<C: OrdColl>(hint: usize, uni: (i32, i32), ops: &[OOp], mon: &OMon) ->
     run_history::<C>(hint, uni, ops, mon, &mut scratch, u64::MAX - 1).is_err()
 }
 
-/// run `probe` ops on a clone of the state; a failure is reported with the path to the state
-fn probe<C: OrdColl>(rep: &mut Report, nodes: &[Node], idx: u32, ex: &OrdExec<C>, ops: &[OOp], mon: &OMon, hint: usize, uni: (i32, i32), transitions: &mut u64) -> bool {
-    let mut c = ex.dup().unwrap();
-    for (i, op) in ops.iter().enumerate() {
-        *transitions += 1;
-        if let Err(f) = c.step(op, mon, rep) {
-            let mut path = path_of(nodes, idx);
-            path.extend_from_slice(&ops[..=i]);
-            let ok = f.sig.starts_with("HARNESS") || confirm::<C>(hint, uni, &path, mon);
-            handle_fail::<C>(rep, f, hint, uni, &path, ok);
-            return false;
+/// Everything the closure applies at one state, in a fixed order: probe sequences (run on clones,
+/// they never add states) followed by the single-operation transitions.
+fn state_sequences<C: OrdColl>(ex: &OrdExec<C>, mon: &OMon, u: i32, keys: &[i32], held_depth: i64) -> (Vec<Vec<OOp>>, usize) {
+    let absent: Vec<i32> = keys.iter().copied().filter(|k| !ex.model.contains_key(k)).collect();
+    let present: Vec<i32> = ex.model.keys().copied().collect();
+    let mut seqs: Vec<Vec<OOp>> = Vec::new();
+    if mon.lookup {
+        let mut ops = vec![OOp::Sweep, OOp::Empty];
+        for p in 0..=2 * u {
+            ops.push(OOp::Get { k: p });
+        }
+        for p in (-1..=2 * u + 1).filter(|p| !ex.model.contains_key(p)) {
+            ops.push(OOp::Del { k: p });
+        }
+        ops.push(OOp::Sweep);
+        seqs.push(ops);
+        seqs.push(vec![OOp::Clear, OOp::Empty, OOp::Sweep]);
+    }
+    if mon.handle {
+        let mut ops = Vec::new();
+        for p in -1..=2 * u + 1 {
+            ops.push(OOp::Fil { k: p });
+            for mode in 0..3 {
+                ops.push(OOp::FilB { k: p, mode });
+            }
+            ops.push(OOp::Rdh { k: p });
+        }
+        seqs.push(ops);
+        for p in -1..=2 * u + 1 {
+            seqs.push(vec![OOp::Wrh { k: p }, OOp::Sweep]);
+            seqs.push(vec![OOp::DelH { k: p }, OOp::Sweep]);
         }
     }
-    true
+    if mon.steps && C::IS_SET {
+        let mut ops = Vec::new();
+        for &k in &present {
+            ops.push(OOp::Aft { k });
+            ops.push(OOp::Bef { k });
+        }
+        ops.push(OOp::WalkF);
+        ops.push(OOp::WalkB);
+        seqs.push(ops);
+    }
+    if mon.held && !present.is_empty() {
+        for &a in &absent {
+            if held_depth >= 2 && absent.len() >= 2 {
+                for &b in absent.iter().filter(|&&b| b != a) {
+                    if held_depth >= 3 && absent.len() >= 3 {
+                        for &c3 in absent.iter().filter(|&&c3| c3 != a && c3 != b) {
+                            seqs.push(vec![OOp::Hold, OOp::Ins { k: a }, OOp::Chk, OOp::Ins { k: b }, OOp::Chk, OOp::Ins { k: c3 }, OOp::Chk]);
+                        }
+                    } else {
+                        seqs.push(vec![OOp::Hold, OOp::Ins { k: a }, OOp::Chk, OOp::Get { k: a }, OOp::Ins { k: b }, OOp::Chk]);
+                    }
+                }
+            } else {
+                seqs.push(vec![OOp::Hold, OOp::Ins { k: a }, OOp::Chk]);
+            }
+        }
+    }
+    let first_transition = seqs.len();
+    for &k in &absent {
+        seqs.push(vec![OOp::Ins { k }]);
+    }
+    for &k in &present {
+        seqs.push(vec![OOp::Del { k }]);
+    }
+    (seqs, first_transition)
 }
 
-fn closure<C: OrdColl>(cfg: &Cfg, rep: &mut Report, u: i32, hint: usize, set_index: u64) -> bool {
-    let mon = OMon::from_list(cfg.str_or("mon", "all"));
+/// `emit`: Some((state, sequence number)) = do not judge anything, walk the same breadth-first
+/// order until `state` is about to be expanded and print the path to it plus that sequence
+fn closure<C: OrdColl>(cfg: &Cfg, rep: &mut Report, u: i32, hint: usize, set_index: u64, emit: Option<(u32, usize)>) -> bool {
+    let judge = OMon::from_list(cfg.str_or("mon", "all"));
+    // while emitting, the probes are skipped and the transitions run unjudged
+    let mon = if emit.is_some() { OMon::default() } else { judge };
     let max_states = cfg.num("max_states", 300_000) as usize;
     let held_depth = cfg.num("held_depth", 2);
     let uni = (0, 2 * u);
@@ -188,97 +246,57 @@ fn closure<C: OrdColl>(cfg: &Cfg, rep: &mut Report, u: i32, hint: usize, set_ind
             let mut next: Vec<(u32, OrdExec<C>)> = Vec::new();
             for (idx, ex) in frontier.iter() {
                 let idx = *idx;
-                ctx::set((set_index << 40) | idx as u64, transitions);
-                let absent: Vec<i32> = keys.iter().copied().filter(|k| !ex.model.contains_key(k)).collect();
-                let present: Vec<i32> = ex.model.keys().copied().collect();
-                // --- per-state probes (on clones; they never add states) ---
-                if mon.lookup {
-                    let mut ops = vec![OOp::Sweep, OOp::Empty];
-                    for p in 0..=2 * u {
-                        ops.push(OOp::Get { k: p });
-                    }
-                    for p in (-1..=2 * u + 1).filter(|p| !ex.model.contains_key(p)) {
-                        ops.push(OOp::Del { k: p });
-                    }
-                    ops.push(OOp::Sweep);
-                    probe(rep, &nodes, idx, ex, &ops, &mon, hint, uni, &mut transitions);
-                    probe(rep, &nodes, idx, ex, &[OOp::Clear, OOp::Empty, OOp::Sweep], &mon, hint, uni, &mut transitions);
-                }
-                if mon.handle {
-                    let mut ops = Vec::new();
-                    for p in -1..=2 * u + 1 {
-                        ops.push(OOp::Fil { k: p });
-                        for mode in 0..3 {
-                            ops.push(OOp::FilB { k: p, mode });
+                let hist = (set_index << 40) | idx as u64;
+                let (seqs, first_transition) = state_sequences(ex, &judge, u, &keys, held_depth);
+                if let Some((want_state, want_seq)) = emit {
+                    if idx == want_state {
+                        println!("CTOR coll={} hint={} uni={}..{}", C::NAME, hint, uni.0, uni.1);
+                        for o in path_of(&nodes, idx) {
+                            println!("OP {}", o.line());
                         }
-                        ops.push(OOp::Rdh { k: p });
-                    }
-                    probe(rep, &nodes, idx, ex, &ops, &mon, hint, uni, &mut transitions);
-                    for p in -1..=2 * u + 1 {
-                        probe(rep, &nodes, idx, ex, &[OOp::Wrh { k: p }, OOp::Sweep], &mon, hint, uni, &mut transitions);
-                        probe(rep, &nodes, idx, ex, &[OOp::DelH { k: p }, OOp::Sweep], &mon, hint, uni, &mut transitions);
-                    }
-                }
-                if mon.steps && C::IS_SET {
-                    let mut ops = Vec::new();
-                    for &k in &present {
-                        ops.push(OOp::Aft { k });
-                        ops.push(OOp::Bef { k });
-                    }
-                    ops.push(OOp::WalkF);
-                    ops.push(OOp::WalkB);
-                    probe(rep, &nodes, idx, ex, &ops, &mon, hint, uni, &mut transitions);
-                }
-                if mon.held && !present.is_empty() {
-                    for &a in &absent {
-                        if held_depth >= 2 && absent.len() >= 2 {
-                            for &b in absent.iter().filter(|&&b| b != a) {
-                                if held_depth >= 3 && absent.len() >= 3 {
-                                    for &c3 in absent.iter().filter(|&&c3| c3 != a && c3 != b) {
-                                        probe(rep, &nodes, idx, ex, &[OOp::Hold, OOp::Ins { k: a }, OOp::Chk, OOp::Ins { k: b }, OOp::Chk, OOp::Ins { k: c3 }, OOp::Chk], &mon, hint, uni, &mut transitions);
-                                    }
-                                } else {
-                                    probe(rep, &nodes, idx, ex, &[OOp::Hold, OOp::Ins { k: a }, OOp::Chk, OOp::Get { k: a }, OOp::Ins { k: b }, OOp::Chk], &mon, hint, uni, &mut transitions);
-                                }
+                        if let Some(sq) = seqs.get(want_seq) {
+                            for o in sq {
+                                println!("OP {}", o.line());
                             }
-                        } else {
-                            probe(rep, &nodes, idx, ex, &[OOp::Hold, OOp::Ins { k: a }, OOp::Chk], &mon, hint, uni, &mut transitions);
                         }
+                        return true;
                     }
                 }
-                // --- transitions ---
-                let mut ops: Vec<OOp> = Vec::new();
-                for &k in &absent {
-                    ops.push(OOp::Ins { k });
-                }
-                for &k in &present {
-                    ops.push(OOp::Del { k });
-                }
-                for op in ops {
+                for (si, sq) in seqs.iter().enumerate() {
+                    if si < first_transition && emit.is_some() {
+                        continue;
+                    }
+                    ctx::set(hist, si as u64);
                     let mut c = ex.dup().unwrap();
-                    transitions += 1;
-                    match c.step(&op, &mon, rep) {
-                        Err(f) => {
+                    let mut failed = false;
+                    for (oi, op) in sq.iter().enumerate() {
+                        transitions += 1;
+                        if let Err(f) = c.step(op, &mon, rep) {
                             let mut path = path_of(&nodes, idx);
-                            path.push(op);
+                            path.extend_from_slice(&sq[..=oi]);
                             let ok = f.sig.starts_with("HARNESS") || confirm::<C>(hint, uni, &path, &mon);
                             handle_fail::<C>(rep, f, hint, uni, &path, ok);
-                            if rep.counters.get("violations_total") > 50 {
+                            failed = true;
+                            break;
+                        }
+                    }
+                    if failed {
+                        if rep.counters.get("violations_total") > 50 {
+                            truncated = true;
+                            break 'bfs;
+                        }
+                        continue;
+                    }
+                    if si >= first_transition {
+                        let cn = canon(&c);
+                        if !seen.contains_key(&cn) {
+                            let ni = nodes.len() as u32;
+                            nodes.push(Node { parent: idx, op: sq[0] });
+                            seen.insert(cn, ni);
+                            next.push((ni, c));
+                            if nodes.len() > max_states {
                                 truncated = true;
                                 break 'bfs;
-                            }
-                        }
-                        Ok(_) => {
-                            let cn = canon(&c);
-                            if !seen.contains_key(&cn) {
-                                let ni = nodes.len() as u32;
-                                nodes.push(Node { parent: idx, op });
-                                seen.insert(cn, ni);
-                                next.push((ni, c));
-                                if nodes.len() > max_states {
-                                    truncated = true;
-                                    break 'bfs;
-                                }
                             }
                         }
                     }
@@ -286,6 +304,9 @@ fn closure<C: OrdColl>(cfg: &Cfg, rep: &mut Report, u: i32, hint: usize, set_ind
             }
             frontier = next;
             depth += 1;
+        }
+        if emit.is_some() {
+            return false;
         }
         nstates = nstates.max(nodes.len());
         rep.counters.max("max_closure_depth", depth);
@@ -328,9 +349,16 @@ pub fn suite_ord_closure(cfg: &Cfg, rep: &mut Report) {
     // sets: "coll:u:hint,..."
     let spec = cfg.str_or("sets", "maptree:6:8,settree:6:0,maptree:7:1,settree:7:9").to_string();
     let mut all = true;
+    // --emit 1 --only <(set index << 40) | state> --seq <n>: print the explicit witness
+    let emit_for = if cfg.emit { cfg.only.map(|h| ((h >> 40) as usize, (h & 0xFF_FFFF_FFFF) as u32, cfg.num("seq", 0) as usize)) } else { None };
     for (si, part) in spec.split(',').enumerate() {
-        if si as u64 % cfg.nshards != cfg.shard {
+        if emit_for.is_none() && si as u64 % cfg.nshards != cfg.shard {
             continue;
+        }
+        if let Some((want_set, _, _)) = emit_for {
+            if want_set != si {
+                continue;
+            }
         }
         let f: Vec<&str> = part.split(':').collect();
         if f.len() != 3 {
@@ -338,11 +366,12 @@ pub fn suite_ord_closure(cfg: &Cfg, rep: &mut Report) {
         }
         let u: i32 = f[1].parse().unwrap_or(5);
         let hint: usize = f[2].parse().unwrap_or(8);
+        let emit = emit_for.map(|(_, st, sq)| (st, sq));
         let ok = match f[0] {
-            "maptree" => closure::<MTree>(cfg, rep, u, hint, si as u64),
-            "settree" => closure::<STree>(cfg, rep, u, hint, si as u64),
-            "settree-int" => closure::<STreeInt>(cfg, rep, u, hint, si as u64),
-            "maptree-int" => closure::<MTreeInt>(cfg, rep, u, hint, si as u64),
+            "maptree" => closure::<MTree>(cfg, rep, u, hint, si as u64, emit),
+            "settree" => closure::<STree>(cfg, rep, u, hint, si as u64, emit),
+            "settree-int" => closure::<STreeInt>(cfg, rep, u, hint, si as u64, emit),
+            "maptree-int" => closure::<MTreeInt>(cfg, rep, u, hint, si as u64, emit),
             _ => true,
         };
         all &= ok;
